@@ -98,4 +98,24 @@ theorem unverifiable_kinds_rejected_when_strict (chain : Term) (t : Tx) (version
   simp [verifyTransactions, hp, h11, hs, hv, hk]
 
 
+/-- REGRESSION WITNESS for `ParseBlockVersion` BEFORE fix 2e0402b (`parseVersionWith false`: any length
+accepted): a 40-byte string starting `0.14.1.` has the same hashed value (mod P) as `0.14.0` and parses to
+another protocol version. Sig `long-protocol-version-wraps-mod-p` is in `fixed`; the harness keeps the
+`wrapP` string mutations and the long strings in the hash correspondence. -/
+theorem version_string_wrap_accepted_before_2e0402b :
+    ∃ a b v w, parseVersionWith false a = some v ∧ parseVersionWith false b = some w ∧
+      bytesToNat a % starkPrime = bytesToNat b % starkPrime ∧ a ≠ b ∧ v ≠ w :=
+  ⟨asciiBytes "0.14.0", wrapWitness, ⟨0, 14, 0⟩, ⟨0, 14, 1⟩, by decide, by decide, by decide, by decide, by decide⟩
+
+/-- … and the block hash (unchanged by the fix: it still hashes the reduced value) does not see the
+difference; since 2e0402b such a string no longer parses, so `blockHash` returns an error for it. -/
+theorem long_version_same_block_hash_before_2e0402b (b : Block) (sd : StateDiff) (v' : Bytes)
+    (h : bytesToNat v' % starkPrime = bytesToNat b.header.version % starkPrime) :
+    post0134 { b with header := { b.header with version := v' } } sd = post0134 b sd :=
+  post0134_version_only_modP b sd v' h
+
+/-- the current code rejects the witness string -/
+theorem wrap_witness_rejected_now : parseVersion wrapWitness = none ∧ versionSupported wrapWitness = false := by
+  decide
+
 end Juno.C02.Regression
